@@ -280,13 +280,15 @@ def build_ws(ws, prop, batches):
     failed = sorted(set(re.findall(r"could not compile `\w+?_b(\d+)`", pr.stdout)), key=int)
     if not failed:
         # no generated crate is at fault: typically a compiler process killed for lack of memory while many large
-        # crates were built at once (thorough tiers on a loaded machine). One retry with few parallel jobs.
-        pr2 = sh(["cargo", "build", "-q", "-j", "4"], cwd=ws, check=False)
-        if pr2.returncode == 0:
-            return []
+        # crates were built at once (thorough tiers on a loaded machine). Retries with few parallel jobs.
+        for jobs in ("4", "2"):
+            pr2 = sh(["cargo", "build", "-q", "-j", jobs], cwd=ws, check=False)
+            if pr2.returncode == 0:
+                return []
+            time.sleep(20)
         errs = [l for l in pr2.stdout.splitlines() if l.startswith("error")]
         sys.stderr.write("\n".join(errs[:20]) + "\n" + pr2.stdout[-2500:])
-        raise Inconclusive("cargo build failed outside the generated program crates")
+        raise Inconclusive("cargo build failed outside the generated program crates: %s" % (errs[0][:200] if errs else "no error line"))
     out = []
     # split the diagnostics and attribute them to modules
     diags = re.split(r"\n(?=error)", pr.stdout)
